@@ -450,3 +450,116 @@ def check_b2b(rep, fb, rule_prefix="b2b"):
                     rep.ob(rule_prefix + ".closure", "cts::" + c["path"], set(cn) <= {"encrypt_inout", "decrypt_inout"}, "closure calls %s" % cn, loc_of(c))
     # InOutBuf::new itself (T1, analysed): Err iff lengths differ, no write
     rep.ob(rule_prefix + ".found", "cts", found == 2, "%d provided *_b2b methods found" % found)
+
+
+# ---------------------------------------------------------------- constructors and provided wrappers
+def check_constructors(rep, fb, rule_prefix="cts.init"):
+    """inner_iv_init / inner_init store exactly the given IV and cipher (the end-to-end terms are
+    expressed over the stored IV, so this closes the gap to the user-visible constructor)."""
+    from .modes import impl_for
+    cr, types = cts_types(fb)
+    for ty in types:
+        inst = "cts::" + ty["name"]
+        try:
+            im = impl_for(cr, "InnerIvInit", ty["adt"]) or impl_for(cr, "InnerInit", ty["adt"])
+            if im is None:
+                rep.ob(rule_prefix, inst, False, "no InnerIvInit/InnerInit impl")
+                continue
+            b = method_body(cr, im, "inner_iv_init") or method_body(cr, im, "inner_init")
+            ip, ps = run_plain(fb, cr, b, ["c", "IV"], cts_ctx(), base_facts())
+            if len(ps) != 1:
+                raise Undecided("%d paths" % len(ps))
+            r = ps[0]["ret"]
+            ok = r[0] == "struct" and r[2].get("cipher") == ("opaque", "C") or (r[0] == "struct" and r[2].get("cipher", ("x",))[0] == "opaque")
+            if im["trait_name"] == "InnerIvInit":
+                T.declare_var("IV", BS)
+                ivf = [v for k, v in r[2].items() if v[0] == "bytes"]
+                ok = ok and len(ivf) == 1 and T.bequal(ivf[0][1], T.bvar("IV"), ps[0]["F"])
+            else:
+                ok = ok and not [v for v in r[2].values() if v[0] == "bytes"]
+            rep.ob(rule_prefix, inst, ok, "constructor stores the given cipher%s unchanged" % (" and IV" if im["trait_name"] == "InnerIvInit" else ""), loc_of(b), computed=show_value(r))
+        except (Undecided, KeyError) as e:
+            rep.undecided(rule_prefix, inst, str(e))
+
+
+def check_wrappers(rep, fb, rule_prefix="b2b"):
+    """C13: the provided `encrypt`/`decrypt` (in place) and `*_b2b` wrappers, interpreted with Self
+    bound to each cts type: a call is rejected (Err, buffers untouched, no cipher call) exactly when
+    the lengths differ or the message is shorter than one block; otherwise every output byte is written."""
+    cr, types = cts_types(fb)
+    trait_bodies = {}
+    for b in cr.bodies:
+        if b.get("in_trait") and b["name"] in ("encrypt", "decrypt", "encrypt_b2b", "decrypt_b2b"):
+            trait_bodies[b["name"]] = b
+    if len(trait_bodies) != 4:
+        rep.ob(rule_prefix + ".found", "cts", False, "provided wrapper methods found: %s" % sorted(trait_bodies))
+        return
+    for ty in types:
+        for dir_, tname in (("enc", "Encrypt"), ("dec", "Decrypt")):
+            im = None
+            for i2 in cr.impls:
+                if i2.get("trait_name") == tname and i2.get("self_adt") == ty["adt"]:
+                    im = i2
+            if im is None:
+                continue
+            for meth in (("encrypt" if dir_ == "enc" else "decrypt"), ("encrypt_b2b" if dir_ == "enc" else "decrypt_b2b")):
+                b = trait_bodies[meth]
+                inst = "cts::%s::%s" % (ty["name"], meth)
+                is_b2b = meth.endswith("b2b")
+                la = K * BS + D
+                # lengths: equal; and for b2b also output longer / shorter than the input
+                variants = [("equal", la, ())]
+                if is_b2b:
+                    lo_s = Lin.sym("o.len")
+                    variants += [("longer", lo_s, (lo_s - la - 1,)), ("shorter", lo_s, (la - lo_s - 1, lo_s))]
+                try:
+                    n_ok = n_err = 0
+                    for vname, lo_, extra in variants:
+                        ctx = cts_ctx()
+                        ctx.trait_impl = {im["trait"]: (cr, im)}
+                        ctx.extra[("slice_len", "a")] = la
+                        ctx.extra[("slice_len", "o")] = lo_
+                        F = base_facts()
+                        F.add_ge(K)
+                        F.add_ge(D)
+                        F.add_ge(BS - 1 - D)
+                        for g in extra:
+                            F.add_ge(g)
+                        from .kernels import abstract_value, run_method
+
+                        def build(ip, st, b=b, im=im):
+                            st.decomp[(la, BS)] = (K, D)
+                            selfv = abstract_value(ip, cr, st, im["self_ty"], "self")
+                            args = [selfv]
+                            for i in range(2, b["arg_count"] + 1):
+                                nm = {2: "a", 3: "o"}[i] if b["arg_count"] == 3 else "a"
+                                args.append(abstract_value(ip, cr, st, b["locals"][i]["ty"], nm))
+                            return args, {c[1]: c for c in st.heap if c[0] == "A"}
+                        ip, paths = run_method(fb, cr, b, build, ctx, F)
+                        outname = "o" if is_b2b else "a"
+                        T.declare_var("a", la)
+                        T.declare_var("o", lo_)
+                        for p in paths:
+                            r = p["ret"]
+                            Fp = p["F"]
+                            if r[0] != "enum":
+                                raise Undecided("wrapper returns %s" % r[0])
+                            out = p["cells"][outname][1]
+                            ciph = [e for e in p["events"] if e[0] in ("cipher", "with_backend")]
+                            if r[3] == "Err":
+                                n_err += 1
+                                untouched = T.bequal(out, T.bvar(outname, ZERO, lo_ if is_b2b else la), Fp)
+                                if is_b2b:
+                                    untouched = untouched and T.bequal(p["cells"]["a"][1], T.bvar("a", ZERO, la), Fp)
+                                violated = Fp.prove_ge(BS - 1 - la) or vname != "equal"
+                                rep.ob(rule_prefix + ".reject", "%s/%s/%s" % (inst, vname, "short" if Fp.prove_ge(BS - 1 - la) else "len"), untouched and not ciph and violated,
+                                       "rejected only for a contract violation; buffers untouched; no cipher call", loc_of(b))
+                            else:
+                                n_ok += 1
+                                good = vname == "equal" and Fp.prove_ge(la - BS) and len([e for e in ciph if e[0] == "with_backend"]) == 1
+                                if is_b2b:
+                                    good = good and "o" not in T.bvars(out)
+                                rep.ob(rule_prefix + ".accept", "%s/%s/%d" % (inst, vname, n_ok), good, "accepted only with equal lengths >= one block; %sone pass through the cipher" % ("every output byte written; " if is_b2b else ""), loc_of(b))
+                    rep.ob(rule_prefix + ".paths", inst, n_ok >= 1 and n_err >= (3 if is_b2b else 1), "%d accepting and %d rejecting paths over %d length relations" % (n_ok, n_err, len(variants)), loc_of(b))
+                except (Undecided, KeyError, IndexError) as e:
+                    rep.undecided(rule_prefix + ".wrapper", inst, str(e), loc_of(b))
